@@ -82,13 +82,13 @@ func (StdEng) denseRepeat(t, reuse DenseTensor, newShape Shape, axis, size int, 
 	}
 
 	var stride, newStride int
-	if newShape.IsVector() || t.IsVector() {
-		stride = 1 // special case because CalcStrides() will return []int{1} as the strides for a vector
+	if t.IsScalar() || t.Dims() == 1 || len(newShape) == 1 {
+		stride = 1 // scalars, plain vectors and flattened repeats are walked element by element
 	} else {
 		stride = t.ostrides()[axis]
 	}
 
-	if newShape.IsVector() {
+	if len(newShape) == 1 {
 		newStride = 1
 	} else {
 		newStride = d.ostrides()[axis]
